@@ -288,10 +288,10 @@ def gen_chain(rng, n, calls=0.0):
 
 def gen_exponent(rng, depth):
     r = rng.random()
-    if r < 0.02:
+    if r < 0.01:
         # large exponents around byte / word boundaries of the exponent itself (2^256, 3^-512, 1.5^1000): square-and-multiply
         # rewrites of the power loop go wrong at exactly these (seed C01-d); the size guard of ev() skips what gets too big
-        return int_lit(rng.choice([-1, 1, 1]) * rng.choice([100, 127, 128, 129, 255, 256, 257, 300, 511, 512, 513, 768, 1000, 1023, 1024, 1025, 2048]))
+        return int_lit(rng.choice([-1, 1, 1]) * rng.choice([100, 127, 128, 129, 255, 256, 257, 300, 511, 512, 513, 768, 1000, 1023, 1024, 1025]))
     if r < 0.06:
         return int_lit(rng.choice([-1, 1]) * rng.randint(9, 64))      # two-digit powers (the size guard of ev() skips what gets too big)
     if r < 0.7 or depth <= 0:
